@@ -5,6 +5,7 @@ import (
 	"context"
 	"encoding/json"
 	"fmt"
+	"sync"
 	"testing"
 
 	goat "github.com/avos-io/goat"
@@ -281,19 +282,23 @@ func TestC02Race(t *testing.T) {
 // ---- C02 write fault: one transport write of a stream message fails while the connection stays healthy ----
 
 type C02Fault struct {
-	Kind  int  `json:"kind"`   // client or bidi
-	N     int  `json:"n"`      // messages the caller tries to send
-	FailJ int  `json:"fail_j"` // index of the message whose transport write fails
-	Ser   bool `json:"ser"`
+	// ErrKind: the error value the failing transport returns (kit.FaultErrKinds)
+	ErrKind string `json:"err_kind,omitempty"`
+	Kind    int    `json:"kind"`   // client or bidi
+	N       int    `json:"n"`      // messages the caller tries to send
+	FailJ   int    `json:"fail_j"` // index of the message whose transport write fails
+	Ser     bool   `json:"ser"`
 }
 
 func genC02Fault(t *rapid.T) C02Fault {
 	c := C02Fault{Kind: rapid.SampledFrom([]int{kit.KindClient, kit.KindBidi}).Draw(t, "kind"), N: rapid.IntRange(1, 8).Draw(t, "n"), Ser: rapid.Bool().Draw(t, "ser")}
+	c.ErrKind = rapid.SampledFrom(kit.FaultErrKinds).Draw(t, "err_kind")
 	c.FailJ = rapid.IntRange(0, c.N-1).Draw(t, "fail_j")
 	return c
 }
 
 func execC02Fault(t *testing.T, c C02Fault) (v Verdict) {
+	defer kit.UseFaultKind(c.ErrKind)()
 	var got [][]byte
 	var sendErrs []error
 	var end *kit.ErrObs
@@ -367,3 +372,125 @@ func execC02Fault(t *testing.T, c C02Fault) (v Verdict) {
 }
 
 func TestC02Fault(t *testing.T) { checkProp(t, "C02", "writefault", genC02Fault, execC02Fault) }
+
+// ---- C02 burst: many streams opened in the same instant ------------------------------------
+
+type C02Burst struct {
+	Streams int  `json:"streams"` // opened in the same scheduler step
+	Msgs    int  `json:"msgs"`    // messages each caller sends (and expects echoed)
+	Rounds  int  `json:"rounds"`
+	Ser     bool `json:"ser"`
+	Spin    int  `json:"spin,omitempty"` // >0: spin barrier of this group size at the id-allocation hook point
+}
+
+func genC02Burst(t *rapid.T) C02Burst {
+	return C02Burst{Streams: rapid.SampledFrom([]int{2, 8, 32, 64, 64}).Draw(t, "streams"), Msgs: rapid.IntRange(1, 4).Draw(t, "msgs"), Rounds: rapid.IntRange(1, 3).Draw(t, "rounds"), Ser: rapid.Bool().Draw(t, "ser"), Spin: rapid.SampledFrom([]int{0, 2, 4, 8}).Draw(t, "spin")}
+}
+
+// execC02Burst: every stream must get exactly the echoes of its own messages, in order, then io.EOF, and every
+// handler instance must see the messages of exactly one caller - also when all streams are opened at the same instant.
+func execC02Burst(t *testing.T, c C02Burst) (v Verdict) {
+	type obs struct {
+		got [][]byte
+		end *kit.ErrObs
+	}
+	total := c.Streams * c.Rounds
+	o := make([]obs, total)
+	var mu sync.Mutex
+	var handlerSaw [][][]byte
+	res := kit.Bubble(t, func() {
+		svc := kit.NewSvc()
+		svc.Stream("e", true, true, func(s grpcServerStream) error {
+			var mine [][]byte
+			defer func() {
+				mu.Lock()
+				handlerSaw = append(handlerSaw, mine)
+				mu.Unlock()
+			}()
+			for {
+				b, err := kit.RecvBytes(s)
+				if err != nil {
+					return nil
+				}
+				mine = append(mine, b)
+				if err := kit.SendBytes(s, b); err != nil {
+					return err
+				}
+			}
+		})
+		w := kit.NewWorld(kit.Topo{Kind: "direct", Serialize: c.Ser, Clients: 1}, svc, nil, nil)
+		for r := 0; r < c.Rounds; r++ {
+			if c.Spin > 0 {
+				defer spinBarrier([]string{"mux.stream.beforeRegister"}, c.Streams, c.Spin)()
+			}
+			start := make(chan struct{})
+			var wg sync.WaitGroup
+			for i := 0; i < c.Streams; i++ {
+				idx := r*c.Streams + i
+				wg.Add(1)
+				go func() {
+					defer wg.Done()
+					<-start
+					cs, err := w.Conn(0).NewStream(context.Background(), kit.StreamDescFor(kit.KindBidi), kit.FullMethod("e"))
+					if err != nil {
+						e := kit.Observe(err)
+						o[idx].end = &e
+						return
+					}
+					for j := 0; j < c.Msgs; j++ {
+						_ = kit.SendBytes(cs, []byte{0xB2, byte(idx >> 8), byte(idx), byte(j)})
+					}
+					_ = cs.CloseSend()
+					for {
+						b, err := kit.RecvBytes(cs)
+						if err != nil {
+							e := kit.Observe(err)
+							o[idx].end = &e
+							return
+						}
+						o[idx].got = append(o[idx].got, b)
+					}
+				}()
+			}
+			kit.Settle()
+			close(start)
+			wg.Wait()
+		}
+		w.Shutdown()
+		kit.Settle()
+	})
+	if res.Panic != nil {
+		v.failf("panic: %v\n%s", res.Panic, res.Stack)
+	}
+	for idx := range o {
+		var want [][]byte
+		for j := 0; j < c.Msgs; j++ {
+			want = append(want, []byte{0xB2, byte(idx >> 8), byte(idx), byte(j)})
+		}
+		if !kit.BytesEq(o[idx].got, want) {
+			v.failf("stream %d (one of %d opened in the same instant) received %v, want the echoes of its own %d messages in order", idx, c.Streams, digests(o[idx].got), c.Msgs)
+		}
+		if o[idx].end == nil || !o[idx].end.EOF {
+			v.failf("stream %d did not end in io.EOF: %+v", idx, o[idx].end)
+		}
+	}
+	mu.Lock()
+	if len(handlerSaw) != total {
+		v.failf("%d handler runs for %d streams", len(handlerSaw), total)
+	}
+	for _, mine := range handlerSaw {
+		for _, b := range mine {
+			if len(b) != 4 || len(mine[0]) != 4 || b[1] != mine[0][1] || b[2] != mine[0][2] {
+				v.failf("one handler instance received messages of more than one caller, or an invented message: %v", digests(mine))
+			}
+		}
+		if len(mine) != c.Msgs {
+			v.failf("a handler instance received %d messages, its caller sent %d", len(mine), c.Msgs)
+		}
+	}
+	mu.Unlock()
+	v.Info = kit.CaseInfo{Labels: []string{fmt.Sprintf("burst.streams=%d", c.Streams), fmt.Sprintf("burst.spin_barrier=%v", c.Spin > 0)}, NonTrivial: c.Streams >= 8, Key: fmt.Sprintf("%+v", c), Sample: c}
+	return
+}
+
+func TestC02Burst(t *testing.T) { checkProp(t, "C02", "burst", genC02Burst, execC02Burst) }
